@@ -461,8 +461,11 @@ class Setter(Sub):
             def listener(*args):
                 setter = args[-1]
                 calls.append(len(part))
+                r = None
                 for v in part:
-                    setter(v)
+                    r = setter(v)
+                # listeners written as `cond and setter(v)` return False: a return value never matters
+                return False if (len(part) + len(calls)) % 2 else r
             return listener
         if vals:
             first, second = (vals[:split], vals[split:]) if split else (vals, None)
